@@ -22,7 +22,7 @@ CASE_TIMEOUT = 120
 
 def plan(tier):
     if tier == "quick":
-        return {"ncases": 640, "budget_s": 75}
+        return {"ncases": 960, "budget_s": 80}
     return {"ncases": 9000, "budget_s": 900}
 
 
